@@ -211,7 +211,14 @@ def _run(ctx):
             exp = rows
         else:
             exp = rows[:5] + [("...",) * 7] + rows[-5:]
-        if rec.rows != exp:
+        def row_matches(got, want):
+            """the seven header strings appear, in order, among the cells of the row (extra columns are not an error);
+            an ellipsis row is any row without a digit"""
+            if want == ("...",) * 7:
+                return not any(ch.isdigit() for cell in got for ch in cell)
+            it = iter(got)
+            return all(any(cell == w for cell in it) for w in want)
+        if len(rec.rows) != len(exp) or not all(row_matches(g, w) for g, w in zip(rec.rows, exp)):
             dup = len(rec.rows) > len(exp)
             ctx.violation(f"describe/rows/{'duplicated' if dup else 'wrong'}/n={nclass(n)}",
                           f"{len(rec.rows)} rows recorded, expected {len(exp)} (n={n})", dict(wit, got=rec.rows[:14], expected=exp[:14]))
